@@ -74,6 +74,37 @@ def snapshot_ctx(ctx):
     return to_v(ctx.config.sections())
 
 
+PROBE = ("{% for l in names %}{{ l }}\x01{% for k, v in ln[l].options.items() %}{{ k }}\x02{{ v }}\x03{% endfor %}\x04{% endfor %}"
+         "T\x01{% for k, v in options.items() %}{{ k }}\x02{{ v }}\x03{% endfor %}")
+
+
+def observe(ctx):
+    """everything a context reports: its sections, the options of EVERY supported language (target and non-target) through the API,
+    and `options` / `ln.<lang>.options` as a probe template sees them.  get_supported_languages() constructs the non-target languages
+    first (their validators run in place), so the sections are read last."""
+    langs = ctx.get_supported_languages()
+    names = sorted(langs)
+    out = {'all_options': {n: to_v(langs[n].get_options()) for n in names},
+           'options': to_v(ctx.get_target_language().get_options()), 'language': ctx.get_target_language().name}
+    try:
+        from nunavut.jinja.environment import CodeGenEnvironmentBuilder
+        from nunavut.jinja.jinja2 import DictLoader
+        env = CodeGenEnvironmentBuilder(DictLoader({'probe.j2': PROBE}), ctx).create()
+        text = env.get_template('probe.j2').render(names=names)
+        tm = {}
+        for blk in text.split('\x04'):
+            name, _, body = blk.partition('\x01')
+            tm[name] = {kv.partition('\x02')[0]: kv.partition('\x02')[2] for kv in body.split('\x03') if kv}
+        out['template'] = tm
+        out['template_expected'] = {n: {k: str(v) for k, v in langs[n].get_options().items()} for n in names}
+        out['template_expected']['T'] = {k: str(v) for k, v in ctx.get_target_language().get_options().items()}
+    except Exception as ex:  # noqa
+        out['template'] = {'error': repr(ex)}
+        out['template_expected'] = None
+    out['sections'] = snapshot_ctx(ctx)
+    return out
+
+
 def do_proc(r, tmp):
     builders, contexts, creates, kept = [], [], [], []
     nfile = 0
@@ -107,9 +138,9 @@ def do_proc(r, tmp):
                 try:
                     ctx = b.create()
                     contexts.append((op[1], ctx))
-                    lang = ctx.get_target_language()
-                    creates.append({'i': op[1], 'sections': snapshot_ctx(ctx), 'options': to_v(lang.get_options()),
-                                    'language': lang.name})
+                    ob = observe(ctx)
+                    ob['i'] = op[1]
+                    creates.append(ob)
                 except Exception as ex:  # noqa: the constructor of the target language raised
                     creates.append({'i': op[1], 'sections': to_v(b.config.sections()), 'options': 'ERR', 'error': repr(ex)})
             else:
@@ -119,7 +150,7 @@ def do_proc(r, tmp):
     return {'creates': creates,
             'final': [to_v(b.config.sections()) for b in builders],
             'ctx_final': [[i, snapshot_ctx(c)] for i, c in contexts],
-            'ctx_options_final': [[i, to_v(c.get_target_language().get_options())] for i, c in contexts],
+            'ctx_obs_final': [observe(c) for _, c in contexts],
             'docs_unmodified': all(a == b for a, b in kept)}
 
 
@@ -142,9 +173,9 @@ def do_cli(r, tmp):
     seen = {n: getattr(args, n, None) for n in ARG_NAMES}
     try:
         ctx = runner._create_language_context()
-        lang = ctx.get_target_language()
-        return {'args': seen, 'sections': snapshot_ctx(ctx), 'options': to_v(lang.get_options()), 'language': lang.name,
-                'get_option': {k: to_v(lang.get_option(k)) for k in lang.get_options()}}
+        out = observe(ctx)
+        out['args'] = seen
+        return out
     except Exception as ex:  # noqa
         return {'args': seen, 'options': 'ERR', 'error': repr(ex)}
 
